@@ -352,7 +352,55 @@ def r14g(F):
 		out.append(Result('14.g', ok, ('ok:' if ok else 'order:') + 'sorted-last@' + label, '%s::write: custom, keysend and invoice_request TLVs are chained first and the list is sorted last (%d sort call(s))%s' % (label, len(srt), '' if ok else '; list grows after the sort at line(s) %s or nothing is chained before it: records would be written out of order and the recipient rejects the payload' % bad), len(srt) + len(ch), where=F.where(wfn)))
 	return out
 
+def r14h(F):
+	"""what the sender builds is what each layer tells the next: (i) peeling a dummy hop forwards the amount and expiry of the peeled layer,
+	not those of the incoming HTLC; (ii) both payload builders describe the blinded tail with the BlindedTail's own values"""
+	out = []
+	fn = OU + 'peel_dummy_hop_update_add_htlc'
+	fu = F.func(fn)
+	ex = Expr(fu)
+	sites = sites_construct(fu, 'UpdateAddHTLC')
+	if len(sites) != 1:
+		out.append(Result('14.h', False, 'anchor:peeled-update-add', 'peel_dummy_hop_update_add_htlc: expected one UpdateAddHTLC construction, found %d' % len(sites), where=F.where(fn)))
+	else:
+		b, si = sites[0]
+		rv = fu.blocks[b]['s'][si][2]
+		fields = dict(zip(rv[5], rv[4]))
+		want = {'amount_msat': 'outgoing_amt_msat', 'cltv_expiry': 'outgoing_cltv_value'}
+		for f, src in want.items():
+			if f not in fields:
+				out.append(Result('14.h', False, 'anchor:peeled-field:' + f, 'UpdateAddHTLC has no field %s' % f))
+				continue
+			lv = expr_leaves(ex.of_operand(fields[f]))
+			ok = src in lv['fields']
+			out.append(Result('14.h', ok, ('ok:' if ok else 'stale:') + 'peeled-dummy-hop:' + f, 'peel_dummy_hop_update_add_htlc: %s of the re-built update_add_htlc is the peeled layer\'s %s (found %s)%s' % (f, src, leaf_key(ex.of_operand(fields[f]))[:50], '' if ok else ' - the next layer is checked against the incoming HTLC\'s value, so a path with dummy hops that charge a fee / CLTV delta is rejected by its own recipient'), 1, where=F.where(fn, fu.line_of(b))))
+		pk = expr_leaves(ex.of_operand(fields.get('onion_routing_packet'))) if 'onion_routing_packet' in fields else {'fields': set()}
+		ok = 'next_packet_pubkey' in pk['fields'] and 'onion_routing_packet' not in pk['fields']
+		out.append(Result('14.h', ok, ('ok:' if ok else 'stale:') + 'peeled-dummy-hop:onion_routing_packet', 'the re-built update_add_htlc carries the next (shifted) onion packet', 1, where=F.where(fn, fu.line_of(b))))
+	# (ii) TailDetails::Blinded in the two payload builders
+	n = 0
+	for bfn in (OU + 'build_onion_payloads', OU + 'build_trampoline_onion_payloads'):
+		for name in F.family(bfn):
+			cu = F.func(name)
+			cex = Expr(cu)
+			for bi, si, st in cu.stmts():
+				rv = st[2]
+				if rv[0] == 'agg' and rv[1] == 'adt' and norm(rv[2]).endswith('TailDetails') and rv[3] == 'Blinded' and bi in cu.reach([0]):
+					n += 1
+					probs = []
+					for f, op in zip(rv[5], rv[4]):
+						lv = expr_leaves(cex.of_operand(op))
+						if f not in lv['fields']:
+							probs.append('%s = %s' % (f, leaf_key(cex.of_operand(op))[:40]))
+					ok = not probs
+					short = bfn.rsplit('::', 1)[-1]
+					out.append(Result('14.h', ok, ('ok:' if ok else 'tail:') + 'blinded-tail-fields@' + short, '%s: every field of TailDetails::Blinded comes from the same-named field of the BlindedTail%s' % (short, '' if ok else ' - not: %s (the recipient is told a final expiry / amount that differs from what the HTLC carries)' % probs), len(rv[5]), where=F.where(name, cu.line_of(bi))))
+	if n < 2:
+		out.append(Result('14.h', False, 'floor:blinded-tail-builders', 'only %d TailDetails::Blinded constructions in the payload builders (expected 2)' % n, n))
+	return out
+
 RULES = [
+	('14.h', 'dummy-hop peeling forwards the peeled layer amount / expiry; both payload builders take the blinded tail values from the BlindedTail', r14h),
 	('14.a', 'decode_next_hop: nothing is decrypted / parsed / returned before the HMAC (over hop data and payment hash) matches', r14a),
 	('14.d', 'final iff the next HMAC is zero; forward returns the shifted same-size packet; payload kind matches packet kind', r14d),
 	('14.f', 'payment onions bind the payment hash on both sides; only onion messages decode untagged', r14f),
